@@ -78,6 +78,10 @@ def rule_namespace_verbatim(ck, F, rule="R6"):
                     n_calls += 1
                     v = CE.expand(W.NF.nf(a, env))
                     steps, root = og.spine(v)
+                    # what happens to the text after it was read counts; how the node it is read from was reached does not
+                    text_reads = [i_ for i_, s_ in enumerate(steps) if s_ in ("attribute", "uri", "text", "lookup_namespace_uri", "default_namespace")]
+                    if text_reads:
+                        steps = steps[:text_reads[0] + 1]
                     extra = [s_ for s_ in steps if s_ not in XML_READS]
                     short = caller.rsplit("::", 1)[-1]
                     if extra:
